@@ -500,13 +500,14 @@ def nan_site(opname):
     body = opname[4:]
     head, _, target = body.partition(":")
     target = "frame" if (not target or target.startswith("frame") or target == "all columns") else target
-    if "other index" in head and not head.startswith(("combine_first", "concat", "join")):
-        # align / binary operators / assign / where with an operand on ANOTHER index: one code path (the metadata of the
-        # aligned expression is evaluated on the operands' empty metas, where alignment inserts nothing)
-        return "nan:alignment(other index)"
     base = head.split("(")[0]
     if base == "join":
         return "merge/join(unmatched rows)"
+    if "other index" in head:
+        # align / binary operators / add(fill_value) / assign / where / mask / combine_first / concat(axis=1) with an operand on
+        # ANOTHER index - ONE root cause whatever the operation: the metadata of an aligned (outer-joined) expression is
+        # evaluated on the operands' empty metas, where alignment inserts nothing, and keeps int / bool where NaN is inserted
+        return "nan:alignment(other index)"
     if base in ("cumsum", "cumprod", "cummax", "cummin"):
         return "nan:cumulative:%s" % target
     method = base if base in ("shift", "diff") else head
@@ -666,7 +667,10 @@ def classify(rec, clauses):
     use = whole or cs
     group = ("kind" if use & {"Kind", "PKind"} else "columns" if use & {"Cols", "PCols"} else "dtypes" if use & {"Dtypes", "PDtypes"}
              else "index-name" if use & {"IName", "PIName"} else "index-dtype" if use & {"IDtype", "PIDtype"} else "npartitions")
-    return "%s:%s:%s" % (site_of(rec["opname"]), group, "computed" if whole else "partition-only")
+    # ONE signature per (call site, field): whether a given sample shows the disagreement in the computed whole or only in some
+    # partitions depends on the data (which partition holds a missing value), not on the root cause.  (The historical
+    # "...:partition-only" entries of known_findings.d/C42.json are therefore no longer produced.)
+    return "%s:%s:computed" % (site_of(rec["opname"]), group)
 
 
 # ----------------------------------------------------------------------------- run
@@ -707,8 +711,13 @@ def gen_programs(ctx, n_layouts, n_two, n_pipes, n_nan=2):
         for s in nan_srcs:
             progs.append({"pid": "m%d" % len(progs), "src": s, "first": "", "op": name})
     names, firsts = sorted(MENU), sorted(FIRST)
+    gentle = ["assign(f=f.fillna)", "map_partitions(identity)"]      # keep every partition as long as it was
     for _ in range(n_two):
-        progs.append({"pid": "m%d" % len(progs), "src": rng.choice(srcs), "first": rng.choice(firsts), "op": rng.choice(names)})
+        name = rng.choice(names)
+        if name in NAN_MENU:
+            progs.append({"pid": "m%d" % len(progs), "src": rng.choice(nan_srcs), "first": rng.choice(gentle), "op": name})
+        else:
+            progs.append({"pid": "m%d" % len(progs), "src": rng.choice(srcs), "first": rng.choice(firsts), "op": name})
     pipes = [C36.gen_program(rng, i) for i in range(n_pipes)]
     return progs, pipes
 
